@@ -10,3 +10,5 @@ open Spydr.Xform
 #print axioms uniquify_idem
 #print axioms flatten_leaves
 #print axioms leaf_occurrence_unique
+#print axioms flatten_preserves_conn
+#print axioms flatten_wf
